@@ -158,4 +158,10 @@ example : PST.check { exVK with h := 12 } [27] [10, 20] [3] ⟨[10, 66], some 93
 example : PST.check { exVK with betaH := [22, 78] } [27] [10, 20] [3] ⟨[10, 66], some 93⟩ [13]
     = .ok false := by decide
 
+/-- `pst13_accumulate_linear`: two commitments / values moved by `(1, 2)` / `(4, 7)` -/
+example : PST.accumulate (0 : K) 0 [27, 13] [3, 62] [13, 17] = .ok (67, 83, [])
+    ∧ PST.accumulate (0 : K) 0 [1, 2] [4, 7] [13, 17] = .ok (47, 70, [])
+    ∧ PST.accumulate (0 : K) 0 [27 + 1, 13 + 2] [3 + 4, 62 + 7] [13, 17] = .ok (67 + 47, 83 + 70, []) := by
+  decide
+
 end PCV.C10
